@@ -803,7 +803,7 @@ func (r *siteRig) genReq(id, site string) *sreq {
 		}
 		sc.explicit = sc.explicit || pick(40)
 		if pick(12) {
-			sc.preCE = []string{"br", "gzip", "zstd", "deflate"}[st.Draw(4)]
+			sc.preCE = []string{"br", "gzip", "zstd", "deflate", "x-gzip", "GZIP", "deflate, gzip", "compress", "Br"}[st.Draw(9)]
 		}
 		if pick(20) {
 			sc.etag = `"etag-` + id + `"`
